@@ -40,6 +40,14 @@ class VCardFile(File):
                 self.content,
                 "Missing header and trailer lines",
             )
+        try:
+            c.decode("utf-8")
+        except UnicodeDecodeError as exc:
+            # address-data is served as UTF-8 text; storing anything else
+            # would make every report that asks for it fail.
+            raise InvalidFileContents(
+                self.content_type, self.content, f"Not valid UTF-8: {exc}"
+            ) from exc
         if not self.addressbook.validate():
             # TODO(jelmer): Get data about what is invalid
             raise InvalidFileContents(
